@@ -220,6 +220,53 @@ func runEarlyAccept(delay time.Duration) (impl, pred string) {
 	return "res=" + strings.Join(rs, ","), pred
 }
 
+// runAfterPeerGone: the plugin side of a pair is stopped (its broker stream ends); the host then uses its broker again:
+// every Accept must return — with an error — within the window.
+func runAfterPeerGone() (impl, pred string) {
+	p, err := newGrpcPair(false)
+	if err != nil {
+		return "setup-error", "FAIL:setup"
+	}
+	defer p.close()
+	p.server.Stop()
+	time.Sleep(500 * time.Millisecond)
+	const n = 12
+	res := make(chan string, n)
+	for i := 0; i < n; i++ {
+		id := uint32(600 + i)
+		go func() {
+			done := make(chan error, 1)
+			go func() {
+				defer func() { recover() }()
+				ln, err := p.host.Accept(id)
+				if ln != nil {
+					ln.Close()
+				}
+				done <- err
+			}()
+			select {
+			case err := <-done:
+				if err == nil {
+					res <- "ok"
+				} else {
+					res <- "err"
+				}
+			case <-time.After(7 * time.Second):
+				res <- "hang"
+			}
+		}()
+	}
+	cnt := map[string]int{}
+	for i := 0; i < n; i++ {
+		cnt[<-res]++
+	}
+	impl = fmt.Sprintf("err=%d ok=%d hang=%d", cnt["err"], cnt["ok"], cnt["hang"])
+	if cnt["hang"] > 0 {
+		return impl, "FAIL:broker-call-after-peer-gone-never-returned"
+	}
+	return impl, "ok"
+}
+
 // runGonePeerDial: the accepting side accepts an ID (its connection info reaches the dialling side) and goes away again —
 // it closes the listener — before the other side dials the ID, with the caller's own grpc.WithBlock() among the options.
 // The dial must end with an error within the window; afterwards a fresh pair works.
